@@ -17,6 +17,7 @@ def run(ctx):
     lib_file.fread_exact(ctx, P)
     lib_file.offsets_cover(ctx, P)
     lib_file.inventory(ctx, P)
+    lib_file.layout_agreement(ctx, P)
     lib_file.error_translation(ctx, P, py)
     E = lib_err.discipline(ctx, P, ["kastore"])
     funcs = set(lib_file.FILE_FUNCS_TABLES) | {"tsk_treeseq_load", "tsk_treeseq_loadf", "write_table", "write_table_cols",
